@@ -120,6 +120,7 @@ struct devstats {
     uint64_t seeks = 0;
     uint64_t seeks_beyond = 0; // seeks to a position outside [0,len]
     uint64_t is_ops = 0;       // std::istream-level operations (wrapped peek/get/readsome/read/seekg)
+    uint64_t f_ops = 0;        // stdio-level operations on a FILE* (wrapped getc/fgetc/fread/fseek)
     uint64_t short_small = 0;  // read calls asking for <= 8 bytes (a fixed-size field) that delivered fewer than asked
     uint64_t work = 0;         // sum over read calls of (bytes that could be delivered + 1): a huge request at EOF costs 1
 };
@@ -300,6 +301,50 @@ std::istream* __wrap__ZNSi5seekgElSt12_Ios_Seekdir(std::istream* s, std::streamo
 }
 }
 
+// ---------------------------------------------------------------------------------------------
+// FILE*-level counters (link with -Wl,--wrap=getc,--wrap=fgetc,--wrap=fread,--wrap=fseek): GIL's file_stream_device
+// reads with std::getc / fread / fseek.  glibc does not call a cookie (or the kernel) again once the stream is at
+// EOF, so a decoder spinning at EOF on a FILE* -- cookie or real file -- is only countable at the stdio interface.
+// Same budget as the istream counters.  Only calls made from the harness binary's own objects (GIL is header-only)
+// are redirected; the codec libraries' own stdio use is not.
+extern "C" {
+int __real_getc(FILE*);
+int __real_fgetc(FILE*);
+size_t __real_fread(void*, size_t, size_t, FILE*);
+int __real_fseek(FILE*, long, int);
+
+int __wrap_getc(FILE* f) {
+    int r = __real_getc(f);
+    c11::budget_t& b = c11::budget();
+    if (b.armed && b.st) { ++b.st->f_ops; b.st->work += 2; if (r == EOF) ++b.st->zero_eof; c11::check_budget(); }
+    return r;
+}
+int __wrap_fgetc(FILE* f) {
+    int r = __real_fgetc(f);
+    c11::budget_t& b = c11::budget();
+    if (b.armed && b.st) { ++b.st->f_ops; b.st->work += 2; if (r == EOF) ++b.st->zero_eof; c11::check_budget(); }
+    return r;
+}
+size_t __wrap_fread(void* p, size_t size, size_t n, FILE* f) {
+    size_t r = __real_fread(p, size, n, f);
+    c11::budget_t& b = c11::budget();
+    if (b.armed && b.st) {
+        ++b.st->f_ops;
+        size_t want = size * n, got = size * r;
+        b.st->work += got + 1;
+        if (want && !got) ++b.st->zero_eof;
+        if (want && want <= 8 && got < want) ++b.st->short_small;
+        c11::check_budget();
+    }
+    return r;
+}
+int __wrap_fseek(FILE* f, long off, int whence) {
+    c11::budget_t& b = c11::budget();
+    if (b.armed && b.st) ++b.st->f_ops;
+    return __real_fseek(f, off, whence);
+}
+}
+
 namespace c11 {
 
 // ---------------------------------------------------------------------------------------------
@@ -352,7 +397,7 @@ struct outcome {
         d = vh::mix(d, (uint64_t)w); d = vh::mix(d, (uint64_t)h); d = vh::mix(d, pix); d = vh::mix(d, (uint64_t)rows);
         d = vh::mix(d, vh::hash_str(info));
         d = vh::mix(d, ops.calls); d = vh::mix(d, ops.bytes_req); d = vh::mix(d, ops.bytes_ret);
-        d = vh::mix(d, ops.zero_eof); d = vh::mix(d, ops.short_small); d = vh::mix(d, ops.seeks); d = vh::mix(d, ops.seeks_beyond); d = vh::mix(d, ops.is_ops);
+        d = vh::mix(d, ops.zero_eof); d = vh::mix(d, ops.short_small); d = vh::mix(d, ops.seeks); d = vh::mix(d, ops.seeks_beyond); d = vh::mix(d, ops.is_ops); d = vh::mix(d, ops.f_ops);
         return d;
     }
     std::string str() const {
@@ -364,7 +409,7 @@ struct outcome {
         if (cls == OC_OK) os << " pix=" << std::hex << pix << std::dec;
         if (!info.empty()) os << " info{" << info << "}";
         os << " ops{calls=" << ops.calls << " req=" << ops.bytes_req << " ret=" << ops.bytes_ret << " eof0=" << ops.zero_eof
-           << " seeks=" << ops.seeks << " beyond=" << ops.seeks_beyond << " is=" << ops.is_ops << "}";
+           << " seeks=" << ops.seeks << " beyond=" << ops.seeks_beyond << " is=" << ops.is_ops << " f=" << ops.f_ops << "}";
         return os.str();
     }
 };
